@@ -639,8 +639,12 @@ fn lex_line(
 								{
 									String::new()
 								};
+								// Unicode escapes have one to six hex digits and
+								// are not allowed in (single byte) char literals.
 								let c = u32::from_str_radix(&literal, 16)
 									.ok()
+									.filter(|_| (1..=6).contains(&literal.len()))
+									.filter(|_| opening_quote != '\'')
 									.and_then(|x| char::from_u32(x));
 								if let Some(c) = c
 								{
